@@ -95,6 +95,9 @@ unsigned int get_rex_prefix(struct instr *all_instr, struct operand *m,
   // register r or m is 64 bits wide
   if ((rm & reg64) || (r->reg & reg64))
     rex_prefix |= rex_w;
+  // a qword memory operand is 64 bits wide whatever its address registers are
+  if (all_instr->keyword.is_qword && all_instr->mem_disp)
+    rex_prefix |= rex_w;
   if (rex_prefix & REX_W_RXB)
     return rex_ | rex_prefix;
   return NONE;
